@@ -87,8 +87,12 @@ func findSelectorExprViolation(
 	ctx *packageOnlyContext,
 	expr *ast.SelectorExpr,
 ) *PackageOnlyViolation {
-	// Get the type information
-	obj := ctx.pass.TypesInfo.ObjectOf(expr.Sel)
+	// Get the type information. Uses comes first: for an embedded field 'pkg.Type' the identifier
+	// also defines the field, and ObjectOf would return that field instead of the type it uses.
+	obj := ctx.pass.TypesInfo.Uses[expr.Sel]
+	if obj == nil {
+		obj = ctx.pass.TypesInfo.ObjectOf(expr.Sel)
+	}
 	if obj == nil {
 		return nil
 	}
